@@ -1,5 +1,6 @@
 import DirectVerif.Gen.C17
 import DirectVerif.Model.Shapes
+import DirectVerif.Model.ShapesChan
 /-!
 # Bridge C17 — the pad / crop arithmetic translated from `/repo` equals the hand-written shape model
 
@@ -194,6 +195,78 @@ theorem forward_gru_eq :
 
 theorem forward_normgru_eq :
     fw_normgru_2 = expand (gru true false 2) := by decide
+
+
+/-! ## channel programs: the channel arithmetic read from the AST of every `forward` (and from the `in_channels` /
+`out_channels` of the instantiated layers, i.e. from the width arithmetic of every `__init__`) is the hand-written
+parametric channel program the full-shape theorems are about.  Widths are pairwise different where the architecture
+allows. -/
+
+theorem channels_unet2d_eq :
+    fwc_unet2d_2_2_2_L1 = unetC 2 2 2 1 ∧
+    fwc_unet2d_3_5_2_L2 = unetC 3 5 2 2 ∧
+    fwc_unet2d_2_2_3_L3 = unetC 2 2 3 3 ∧
+    fwc_unet2d_4_2_2_L4 = unetC 4 2 2 4 := by decide
+
+theorem channels_normunet2d_eq :
+    fwc_normunet2d_2_2_2_L2 = normUnetC 2 2 2 2 ∧
+    fwc_normunet2d_6_2_3_L1 = normUnetC 6 2 3 1 ∧
+    fwc_normunet2d_4_4_2_L4 = normUnetC 4 4 2 4 := by decide
+
+theorem channels_unet3d_eq :
+    fwc_unet3d_2_2_2_L1 = unetC 2 2 2 1 ∧
+    fwc_unet3d_3_2_2_L2 = unetC 3 2 2 2 ∧
+    fwc_unet3d_6_2_3_L3 = unetC 6 2 3 3 := by decide
+
+theorem channels_normunet3d_eq :
+    fwc_normunet3d_2_2_2_L1 = normUnetC 2 2 2 1 ∧
+    fwc_normunet3d_6_2_3_L2 = normUnetC 6 2 3 2 := by decide
+
+theorem channels_mwcnn_eq :
+    fwc_mwcnn_2_2_S1 = mwcnnC false 2 2 1 ∧
+    fwc_mwcnn_2_3_S2 = mwcnnC false 2 3 2 ∧
+    fwc_mwcnn_4_2_S3 = mwcnnC false 4 2 3 ∧
+    fwc_mwcnn_2_2_S3_bn = mwcnnC true 2 2 3 ∧
+    fwc_mwcnn_2_2_S4 = mwcnnC false 2 2 4 ∧
+    fwc_mwcnn_6_3_S2_bn = mwcnnC true 6 3 2 ∧
+    fwc_mwcnn_2_2_S5 = mwcnnC false 2 2 5 := by decide
+
+theorem channels_dub_eq :
+    fwc_dub_4_hooked = dubC 4 true ∧
+    fwc_dub_3_plain = dubC 3 false := by decide
+
+theorem channels_didn_eq :
+    fwc_didn_2_2_4_1_1_noskip = didnC 2 2 4 1 1 false ∧
+    fwc_didn_2_2_4_1_2_skip = didnC 2 2 4 1 2 true ∧
+    fwc_didn_2_2_4_2_3_skip = didnC 2 2 4 2 3 true ∧
+    fwc_didn_2_4_3_3_2_skip = didnC 2 4 3 3 2 false ∧
+    fwc_didn_3_3_2_4_1_skip = didnC 3 3 2 4 1 true ∧
+    fwc_didn_2_2_3_3_1_noskip = didnC 2 2 3 3 1 false := by decide +kernel
+
+theorem channels_resnet_eq :
+    fwc_resnet_2_2_4_B1 = resnetC 2 2 4 true 0 ∧
+    fwc_resnet_2_3_4_B2 = resnetC 2 3 4 true 1 ∧
+    fwc_resnet_3_3_5_B3_nobn = resnetC 3 3 5 false 2 ∧
+    fwc_resnet_2_5_3_B4 = resnetC 2 5 3 true 3 := by decide
+
+theorem channels_conv_eq :
+    fwc_conv_2_2_4_N1 = convNetC 2 2 4 false 1 ∧
+    fwc_conv_2_3_4_N2_bn = convNetC 2 3 4 true 2 ∧
+    fwc_conv_3_2_5_N3 = convNetC 3 2 5 false 3 ∧
+    fwc_conv_2_2_4_N4_bn = convNetC 2 2 4 true 4 ∧
+    fwc_conv_2_3_4_N1_bn = convNetC 2 3 4 true 1 := by decide
+
+/-- Conv2dGRU (with and without dense connections, normalised variant): the channel program read from `forward` runs for
+the instantiated widths, ends with `out_channels`, leaves no register behind, and shows `hidden_channels` at every
+hooked conv block and `out_channels` at the last (`gruChanTrace`, which the driver uses for the full hook shapes) -/
+theorem channels_gru_ok :
+    runC fwc_gru_4_3_2_L1_d0 ⟨4, [], []⟩ = .ok ⟨2, [], gruChanTrace 3 2 1⟩ ∧
+    runC fwc_gru_4_3_2_L2_d0 ⟨4, [], []⟩ = .ok ⟨2, [], gruChanTrace 3 2 2⟩ ∧
+    runC fwc_gru_4_3_2_L2_d1 ⟨4, [], []⟩ = .ok ⟨2, [], gruChanTrace 3 2 2⟩ ∧
+    runC fwc_gru_4_5_2_L3_d2 ⟨4, [], []⟩ = .ok ⟨2, [], gruChanTrace 5 2 3⟩ ∧
+    runC fwc_gru_4_3_2_L3_d1 ⟨4, [], []⟩ = .ok ⟨2, [], gruChanTrace 3 2 3⟩ ∧
+    runC fwc_gru_4_3_2_L2_d1_norm ⟨4, [], []⟩ = .ok ⟨2, [], gruChanTrace 3 2 2⟩ ∧
+    runC fwc_gru_6_4_3_L4_d3 ⟨6, [], []⟩ = .ok ⟨3, [], gruChanTrace 4 3 4⟩ := by decide
 
 
 /-! ## block schedules of the unrolled networks: read from each `forward` = hand-written `Shapes.Sched` -/
